@@ -53,7 +53,21 @@ type flowDef struct {
 	procs [][2]string
 	req   []connDef
 	res   []connDef
+	// filter constraints besides the URL
+	methods []string
+	headers [][2]string
+	status  []string
+	query   [][2]string // value "\x00" = key only
 }
+
+// attributes of a transaction the flow filters look at
+type txnAttrs struct {
+	method, respMethod string
+	headers, query     [][2]string
+	status             int
+}
+
+func defaultAttrs() txnAttrs { return txnAttrs{method: "GET", respMethod: "GET", status: 200} }
 
 type quotaDef struct {
 	id   string
@@ -218,7 +232,30 @@ func endpYAML(e endp, indent string) string {
 
 func flowYAML(f *flowDef) string {
 	var b strings.Builder
-	fmt.Fprintf(&b, "name: %s\nfilter:\n  url: %s\nprocessors:\n", f.name, txnURL)
+	fmt.Fprintf(&b, "name: %s\nfilter:\n  url: %s\n", f.name, txnURL)
+	if len(f.methods) > 0 {
+		fmt.Fprintf(&b, "  method: [%s]\n", strings.Join(f.methods, ", "))
+	}
+	if len(f.headers) > 0 {
+		b.WriteString("  headers:\n")
+		for _, h := range f.headers {
+			fmt.Fprintf(&b, "    - key: %s\n      value: %s\n", h[0], h[1])
+		}
+	}
+	if len(f.status) > 0 {
+		fmt.Fprintf(&b, "  status_code: [%s]\n", strings.Join(f.status, ", "))
+	}
+	if len(f.query) > 0 {
+		b.WriteString("  query_params:\n")
+		for _, q := range f.query {
+			if q[1] == "\x00" {
+				fmt.Fprintf(&b, "    - key: %s\n", q[0])
+			} else {
+				fmt.Fprintf(&b, "    - key: %s\n      value: %s\n", q[0], q[1])
+			}
+		}
+	}
+	b.WriteString("processors:\n")
 	if len(f.procs) == 0 {
 		b.WriteString("  {}\n")
 	}
@@ -280,16 +317,55 @@ func filterTreeOf(s *streams.Stream) internaltypes.FilterTreeI {
 	return reflect.NewAt(f.Type(), unsafe.Pointer(f.UnsafeAddr())).Elem().Interface().(internaltypes.FilterTreeI)
 }
 
-func newReqStream(id string) publictypes.APIStreamI {
+// privField makes an unexported struct field readable.
+func privField(v reflect.Value, name string) reflect.Value {
+	f := v.FieldByName(name)
+	return reflect.NewAt(f.Type(), unsafe.Pointer(f.UnsafeAddr())).Elem()
+}
+
+// allFlowsOf lists, in engine order, every flow registered in the filter tree on the nodes the test URL
+// traverses — whatever the flows' filters say (FilterTree.GetFlow would apply them).
+func allFlowsOf(s *streams.Stream) (start, user, end []internaltypes.FlowI) {
+	ft := reflect.ValueOf(filterTreeOf(s)).Elem() // streamfilter.FilterTree
+	tree := privField(ft, "tree")                 // *urltree.URLTree[FilterNode]
+	res := tree.MethodByName("Traversal").Call([]reflect.Value{reflect.ValueOf(txnURL)})[0]
+	nodes := res.FieldByName("Value") // []*FilterNode
+	for i := 0; i < nodes.Len(); i++ {
+		n := nodes.Index(i)
+		for n.Kind() == reflect.Ptr {
+			n = n.Elem()
+		}
+		for _, part := range []struct {
+			name string
+			dst  *[]internaltypes.FlowI
+		}{{"systemFlowStart", &start}, {"userFlows", &user}, {"systemFlowEnd", &end}} {
+			l := privField(n, part.name)
+			for j := 0; j < l.Len(); j++ {
+				*part.dst = append(*part.dst, l.Index(j).Interface().(internaltypes.FlowI))
+			}
+		}
+	}
+	return
+}
+
+func newReqStream(id string, a txnAttrs) publictypes.APIStreamI {
+	h := map[string]string{"host": txnHost}
+	for _, kv := range a.headers {
+		h[strings.ToLower(kv[0])] = kv[1]
+	}
+	var q []string
+	for _, kv := range a.query {
+		q = append(q, kv[0]+"="+kv[1])
+	}
 	return streamtypes.NewRequestAPIStream(lunar_messages.OnRequest{
-		ID: id, SequenceID: id, Method: "GET", Scheme: "https", URL: txnURL, Path: "/x",
-		Headers: map[string]string{"host": txnHost},
+		ID: id, SequenceID: id, Method: a.method, Scheme: "https", URL: txnURL, Path: "/x",
+		Query: strings.Join(q, "&"), Headers: h,
 	}, lunar_context.NewMemoryState[[]byte]())
 }
 
-func newResStream(id string) publictypes.APIStreamI {
+func newResStream(id string, a txnAttrs) publictypes.APIStreamI {
 	return streamtypes.NewResponseAPIStream(lunar_messages.OnResponse{
-		ID: id, SequenceID: id, Method: "GET", URL: txnURL, Status: 200,
+		ID: id, SequenceID: id, Method: a.respMethod, URL: txnURL, Status: a.status,
 		Headers: map[string]string{},
 	}, lunar_context.NewMemoryState[[]byte]())
 }
@@ -357,12 +433,7 @@ func buildEngine(c *caseCfg, fileOrder []string) *engine {
 		return e
 	}
 	e.s = s
-	res, found := filterTreeOf(s).GetFlow(newReqStream("probe"))
-	if found {
-		e.start, _ = res.GetSystemFlowStart()
-		e.user, _ = res.GetUserFlow()
-		e.end, _ = res.GetSystemFlowEnd()
-	}
+	e.start, e.user, e.end = allFlowsOf(s)
 	for _, l := range [][]internaltypes.FlowI{e.start, e.user, e.end} {
 		for _, f := range l {
 			e.ctxOf[f.GetExecutionContext()] = f.GetName()
@@ -565,13 +636,13 @@ func classifyLoadErr(err error) string {
 }
 
 // runTxn executes one transaction and returns (result class, events, early-response action bodies).
-func (e *engine) runTxn(dir string, oracle map[string]outVal) (string, []string, []string) {
+func (e *engine) runTxn(dir string, oracle map[string]outVal, a txnAttrs) (string, []string, []string) {
 	st := &txnState{oracle: oracle, ctxOf: e.ctxOf}
 	var inner publictypes.APIStreamI
 	if dir == "req" {
-		inner = newReqStream("t1")
+		inner = newReqStream("t1", a)
 	} else {
-		inner = newResStream("t1")
+		inner = newResStream("t1", a)
 	}
 	api := &obsStream{APIStreamI: inner, st: st}
 	acts := &streamconfig.StreamActions{
